@@ -13,13 +13,19 @@ def pair(p):
 
 def judge(ck, sc, res):
     probes = sc["probes"]
-    rp = {"probes": probes, "observed": res["reports"]}
+    rp = {"probes": probes, "observed": res["reports"], "fast_first": sc.get("fast_first", 0), "pace_ms": sc.get("pace_ms", 0)}
     desc = [(p["src"], pair(p)) for p in probes][:40]
     for s, ip in IPS.items():
         want = sorted({pair(p) for p in probes if p["src"] == s})
         listed = sorted(x for r in (res["reports"] or []) if r["src"] == ip for x in r["ports"])
         nrep = len([r for r in (res["reports"] or []) if r["src"] == ip])
         if listed == want:
+            # Knock!ReportedOncePerBurst: one burst of one source is reported in ONE piece per protocol class
+            for cls in ("tcp", "udp", "icmp"):
+                pieces = [r for r in (res["reports"] or []) if r["src"] == ip and any(x.startswith(cls) for x in r["ports"])]
+                if len(pieces) > 1:
+                    ck.disagree("knock/burst-reported-in-pieces", "%d probes from %s in one burst (%s): %d %s reports listing %s ports" % (
+                        len([p for p in probes if p["src"] == s]), s, desc[:6], len(pieces), cls, [len(r["ports"]) for r in pieces]), rp)
             continue
         if not want and listed:
             ck.disagree("knock/report-for-silent-source", "probes %s: source %s never probed but is reported with %s" % (desc, s, listed), rp)
@@ -84,7 +90,17 @@ def run(tier, lab):
             src = rng.choice(srcs)
             probes.append({"src": src, "via": "gw" if src in ("s1", "s2", "s4") else "own", "proto": pr, "port": 0 if pr == "icmp" else rng.choice([1000, 1001, 2000 + rng.randint(0, 30)])})
         scs.append({"id": len(scs), "probes": probes})
-    results = lib.run_sharded(lab, "c20", [{"id": s["id"], "probes": s["probes"]} for s in scs], shards=min(lib.NCPU, 8), timeout=1200)
+    # scans that take their time: more than 100 probes spread over more than one quiet period's length, never pausing for a
+    # whole quiet period - still ONE burst per source (Knock.tla reports only when no probe arrived for the quiet period)
+    for k, (nsrc, fast, slow, pace) in enumerate([(1, 110, 40, 150), (2, 120, 60, 100), (1, 30, 100, 60)] if tier == "quick" else
+                                                 [(1, 110, 40, 150), (2, 120, 60, 100), (1, 30, 100, 60), (3, 200, 80, 90), (1, 101, 30, 200), (2, 10, 150, 45)]):
+        probes = []
+        for n in range(fast + slow):
+            src = "s%d" % (1 + n % nsrc)
+            probes.append({"src": src, "via": "gw" if src in ("s1", "s2") else "own", "proto": "udp", "port": 3000 + n})
+        scs.append({"id": len(scs), "probes": probes, "fast_first": fast, "pace_ms": pace})
+    results = lib.run_sharded(lab, "c20", [{k: v for k, v in s.items() if k in ("id", "probes", "fast_first", "pace_ms")} for s in scs],
+                              shards=min(lib.NCPU, 8), timeout=1200)
     byid = {x["id"]: x for x in results}
     multi = 0
     for sc in scs:
@@ -113,9 +129,10 @@ def replay(lab, path):
     if "uset" in rp:
         uset_part(ck, "quick", lab)
     else:
-        res = lib.run_sharded(lab, "c20", [{"id": 0, "probes": rp["probes"]}], shards=1, timeout=600)[0]
-        print(json.dumps(res))
-        judge(ck, {"probes": rp["probes"]}, res)
+        sc = {"id": 0, "probes": rp["probes"], "fast_first": rp.get("fast_first", 0), "pace_ms": rp.get("pace_ms", 0)}
+        res = lib.run_sharded(lab, "c20", [sc], shards=1, timeout=600)[0]
+        print(json.dumps(res)[:3000])
+        judge(ck, sc, res)
     for sig, p, what in ck.violations:
         print(sig, what[:300])
     if ck.violations:
